@@ -30,6 +30,18 @@ def prod_axioms():
             z3.ForAll([a, lo, hi], z3.Implies(hi > lo, PRODR(a, lo, hi) == PRODR(a, lo, hi - 1) * z3.Select(a, hi - 1)), patterns=[PRODR(a, lo, hi)])]
 
 
+_CARD = {}
+
+
+def card_of(dom):
+    """ghost cardinality of a set given by its characteristic array (one uninterpreted function per key sort)"""
+    srt = dom.sort()
+    f = _CARD.get(str(srt))
+    if f is None:
+        f = _CARD[str(srt)] = z3.Function("card!%d" % len(_CARD), srt, z3.IntSort())
+    return f(dom)
+
+
 SQRTF = z3.Function("sqrt", z3.RealSort(), z3.RealSort())
 
 
@@ -196,6 +208,11 @@ def call_builtin(ex, name, args, kwargs, node):
         (x,) = args
         if isinstance(x, (Seq, ObjSeq, V.TupleSeq)):
             return x.len()
+        if isinstance(x, DictV):
+            # number of keys: the ghost cardinality of the key set (a non-negative integer; equal key sets have equal cardinality by congruence)
+            c = card_of(x.dom)
+            ex.assume(c >= 0, "def:card")
+            return c
         raise OutOfSubset("len of %r" % (x,), node)
     if name == "np.diag_indices_from":
         m = args[0]
